@@ -338,7 +338,7 @@ def unpadded_order(ctx):
                             isw = bool(tgt) or ((c3.trait and last_seg(c3.trait) in ('Write', 'ByteWriter')) and c3.name.startswith('write'))
                             if not isw:
                                 continue
-                            if b2 in g.reach_from(g.succs(b3)) or b3 == b2:
+                            if b2 in g.reach_from(g.succs(b3)):
                                 pre.append((b3, c3.name))
                         if pre:
                             ctx.violation(key, g.loc(b2, s2), 'the block start snapshot `%s` is taken after %s wrote to the '
